@@ -95,8 +95,25 @@ func ParseCase(line []byte) (Case, error) {
 
 // PNGPayload / JPEGPayload / WebPPayload: the payload tables (pid -> bytes).
 // Sizes straddle every internal buffer boundary named by C06.
+// profileShaped is payload 9: a complete ICC profile (its first four bytes give its size) followed
+// by bytes that size field does not count - zeros, or (variant 2) a size field larger than what follows.
+// Embedded profiles are opaque: every byte of the payload is the profile.
+func profileShaped(variant int, seed uint32) []byte {
+	p := gen.SimpleProfile(360, "payload nine", true, seed)
+	switch variant % 3 {
+	case 0:
+		return append(p, make([]byte, 40)...)
+	case 1:
+		return append(p, make([]byte, 3)...)
+	}
+	p[2], p[3] = 0x02, 0x58 // declares 600 bytes
+	return append(p, make([]byte, 40)...)
+}
+
 func PNGPayload(pid int, variant int) []byte {
 	switch pid {
+	case 9:
+		return profileShaped(variant, 91)
 	case 1:
 		return []byte{byte(0x41 + variant)}
 	case 2:
@@ -121,6 +138,8 @@ func PNGPayload(pid int, variant int) []byte {
 // can carry (65519 bytes), pid 3 sits just above the bufio window.
 func JPEGPayload(pid int, variant int) []byte {
 	switch pid {
+	case 9:
+		return profileShaped(variant, 92)
 	case 1:
 		if variant == 1 {
 			return gen.Payload(65518, 11, false)
@@ -142,6 +161,8 @@ func JPEGPayload(pid int, variant int) []byte {
 
 func WebPPayload(pid int, variant int) []byte {
 	switch pid {
+	case 9:
+		return profileShaped(variant, 93)
 	case 1:
 		return []byte{byte(0x51 + variant)} // odd length: padded
 	case 2:
